@@ -4,5 +4,6 @@ CONSTANTS
   Procs = {"p1", "p2", "p3", "p4"}
   MaxCrashes = 4
   Protocol = "atomic"
+  SignalDeath = "failure"
 POSTCONDITION TraceDone
 CHECK_DEADLOCK FALSE
